@@ -1,0 +1,98 @@
+//go:build verif
+
+package protocol
+
+// Contracts for govc (see /verif/DESIGN.md, C16). Comment-only; compiled only with -tags verif.
+// Pointer receivers are non-nil by the engine's convention (obligation at every static call site).
+
+//@ func msgTypeFromBytes
+//@   modifies nothing
+//@   ensures short-is-error: len(bs) < 2 ==> err != nil
+//@   ensures ok-means-two-bytes: err == nil ==> len(bs) >= 2
+//@   ensures value: err == nil ==> result == bs[0]*256 + bs[1]
+
+//@ func msgTypeToBytes
+//@   ensures len(result) == 2 && fresh(result)
+//@   ensures result[0] == typ / 256 && result[1] == typ % 256
+
+//@ func DecodeMessage
+//@   ensures total: err == nil ==> result != nil
+
+//@ func EncodeMessage
+//@   requires msg != nil
+
+//@ func (*RequestQualities).SetMsg
+//@   requires msg != nil
+//@ func (*ReportQualities).SetMsg
+//@   requires msg != nil
+//@ func (*Quality).SetMsg
+//@   requires msg != nil
+//@ func (*RequestProof).SetMsg
+//@   requires msg != nil
+//@ func (*ReportProof).SetMsg
+//@   requires msg != nil
+//@ func (*Proof).SetMsg
+//@   requires msg != nil
+//@ func (*RequestSignature).SetMsg
+//@   requires msg != nil
+//@ func (*ReportSignature).SetMsg
+//@   requires msg != nil
+
+//@ func NewQuality
+//@   requires msg != nil
+//@ func NewProof
+//@   requires msg != nil
+//@ func NewRequestQualities
+//@   requires msg != nil
+//@ func NewReportQualities
+//@   requires msg != nil
+//@ func NewRequestProof
+//@   requires msg != nil
+//@ func NewReportProof
+//@   requires msg != nil
+//@ func NewRequestSignature
+//@   requires msg != nil
+//@ func NewReportSignature
+//@   requires msg != nil
+
+// ---- well-formedness of messages on the encoding side (the decoder's range, see DESIGN C16)
+
+//@ spec func wfQuality(q *Quality) bool = q != nil && q.WorkSpaceQuality != nil && q.WorkSpaceQuality.PublicKey != nil && q.WorkSpaceQuality.PoolPublicKey != nil
+//@ spec func wfProof(p *Proof) bool = p != nil && p.Proof != nil && p.Proof.PoolPublicKey != nil && p.Proof.PlotPublicKey != nil
+
+//@ func (*RequestQualities).Msg
+//@   modifies nothing
+//@   requires req.ParentTarget != nil
+//@   ensures result != nil
+//@ func (*RequestQualities).Bytes
+//@   requires req.ParentTarget != nil
+//@ func (*RequestQualities).Copy
+//@   requires req.ParentTarget != nil
+//@ func (*Quality).Msg
+//@   modifies nothing
+//@   requires wfQuality(q)
+//@   ensures result != nil
+//@ func (*ReportQualities).Msg
+//@   modifies nothing
+//@   requires forall i int :: 0 <= i && i < len(resp.Qualities) ==> wfQuality(resp.Qualities[i])
+//@   loop i invariant forall j int :: 0 <= j && j < len(resp.Qualities) ==> wfQuality(resp.Qualities[j])
+//@   loop i invariant fresh(qualities)
+//@   ensures result != nil
+//@ func (*ReportQualities).Bytes
+//@   requires forall i int :: 0 <= i && i < len(resp.Qualities) ==> wfQuality(resp.Qualities[i])
+//@ func (*Proof).Msg
+//@   modifies nothing
+//@   requires wfProof(p)
+//@   ensures result != nil
+//@ func (*ReportProof).Msg
+//@   modifies nothing
+//@   requires wfProof(resp.Proof)
+//@   ensures result != nil
+//@ func (*ReportProof).Bytes
+//@   requires wfProof(resp.Proof)
+//@ func (*ReportSignature).Msg
+//@   modifies nothing
+//@   requires resp.Signature != nil
+//@   ensures result != nil
+//@ func (*ReportSignature).Bytes
+//@   requires resp.Signature != nil
